@@ -1057,6 +1057,16 @@ def path_states(func, target_nid, init_hyps=None, max_paths=4000, header_hyps=No
                     return [first] + outs
                 return outs
             return [st]
+        if it[0] == "sw":
+            # the edge of a switch: the selector equals the case value, or none of them (default)
+            c = func.nodes.get(it[1])
+            l_ = lin_now(st, c) if c is not None and not _impure_cond(c) else None
+            if l_ is not None:
+                if it[2] is not None:
+                    st.hyps += [l_ - Lin(k=it[2]), Lin(k=it[2]) - l_]
+                else:
+                    st.hyps += [("ne", l_ - Lin(k=v_)) for v_ in it[3][:6]]
+            return [st]
         if it[0] == "br":
             c = func.nodes[it[1]]
             st.byid[c["id"]] = it[2]
